@@ -375,6 +375,106 @@ def nodes_deep(prog, root, depth=2, _seen=None, crate=None, values=False):
                 yield x
 
 
+def inline_calls(prog, root, crate, depth=2, max_nodes=60, _stack=(), only=None):
+    """A copy of `root` in which every call of a small function of `crate` that has no `return` of its own is replaced by the
+    function's body, parameters replaced by the argument expressions (`place.begin_next_line()` -> `{ place.line += 1; .. }`).
+    Refactorings that bundle the locals of a scan into a struct with methods, or name a condition, are seen through this way; the
+    copy is for *reading* - spans of inlined nodes point into the helper."""
+    import copy
+
+    def subst(node, mp):
+        if isinstance(node, dict):
+            if node.get("k") == "Path":
+                pl = path_local(node)
+                if pl and pl["id"] in mp:
+                    return copy.deepcopy(mp[pl["id"]])
+            return {k: subst(v, mp) for k, v in node.items()}
+        if isinstance(node, list):
+            return [subst(v, mp) for v in node]
+        return node
+
+    counter = [0]
+
+    def rename(node, suffix):
+        """binding ids are unique per body only: the ids of an inlined body get a suffix of their own"""
+        if isinstance(node, list):
+            return [rename(v, suffix) for v in node]
+        if not isinstance(node, dict):
+            return node
+        node = {k: rename(v, suffix) for k, v in node.items()}
+        if node.get("k") == "Binding" and "id" in node:
+            node["id"] = "%s%s" % (node["id"], suffix)
+        if node.get("k") == "Local" and "id" in node:
+            node["id"] = "%s%s" % (node["id"], suffix)
+        return node
+
+    def go(node, d, stack):
+        if isinstance(node, list):
+            return [go(v, d, stack) for v in node]
+        if not isinstance(node, dict):
+            return node
+        node = {k: go(v, d, stack) for k, v in node.items()}
+        if node.get("k") == "Call" and isinstance(node.get("f"), dict) and strip_ref(node["f"]).get("k") == "Closure":
+            # a closure that is called where it stands (a function-typed parameter after substitution): its body with the parameters
+            # bound to the arguments
+            cl = strip_ref(node["f"])
+            ps = cl.get("params") or []
+            args = list(node.get("args") or [])
+            if len(ps) == len(args) and not any(True for _ in nodes(cl["body"], "Ret")):
+                binds = [{"k": "Let", "pat": q, "init": a, "sp": a.get("sp")} for q, a in zip(ps, args)]
+                inner = strip(cl["body"])
+                if inner.get("k") == "BlockExpr":
+                    blk_ = dict(inner["b"])
+                    blk_["stmts"] = binds + list(blk_["stmts"])
+                    return dict(inner, b=blk_)
+                return {"k": "BlockExpr", "b": {"k": "Block", "stmts": binds, "expr": cl["body"], "sp": node.get("sp")},
+                        "t": node.get("t"), "sp": node.get("sp")}
+        if d > 0 and node.get("k") in ("Call", "MethodCall"):
+            hb = local_callee_body(prog, node)
+            if hb is not None and hb.get("_crate") is crate and hb["k"] in ("fn", "assoc_fn") and hb["p"] not in stack and \
+                    (only is None or only(hb)):
+                args = ([node["recv"]] if node["k"] == "MethodCall" else []) + list(node.get("args") or [])
+                ps = hb["params"]
+                if len(args) == len(ps) and all(q.get("k") == "Binding" and not q.get("sub") for q in ps):
+                    body = hb["body"]
+                    n_nodes = sum(1 for _ in nodes(body))
+                    if n_nodes <= max_nodes and not any(True for _ in nodes(body, "Ret")):
+                        counter[0] += 1
+                        sfx = "~%d" % counter[0]
+                        body = rename(body, sfx)
+                        ps = rename(ps, sfx)
+                        mp, binds = {}, []
+                        for q, a in zip(ps, args):
+                            a2 = strip_ref(a)
+                            simple = a2
+                            while isinstance(simple, dict) and simple.get("k") == "Field":
+                                simple = strip_ref(simple["base"])
+                            if isinstance(simple, dict) and (simple.get("k") in ("Path", "Lit", "Closure")):
+                                a2 = dict(a2)
+                                a2.pop("adj", None)
+                                mp[q["id"]] = a2
+                            else:
+                                # an argument that computes something is evaluated once: `let <param> = <argument>;`
+                                binds.append({"k": "Let", "pat": q, "init": a, "sp": a.get("sp")})
+                        new = subst(copy.deepcopy(body), mp)
+                        new = go(new, d - 1, stack + (hb["p"],))
+                        if binds:
+                            inner = strip(new)
+                            if inner.get("k") == "BlockExpr":
+                                blk_ = dict(inner["b"])
+                                blk_["stmts"] = binds + list(blk_["stmts"])
+                                new = dict(inner, b=blk_)
+                            else:
+                                new = {"k": "BlockExpr", "b": {"k": "Block", "stmts": binds, "expr": new, "sp": node.get("sp")},
+                                       "t": node.get("t"), "sp": node.get("sp")}
+                        if isinstance(new, dict):
+                            new = dict(new)
+                            new["inlined"] = hb["p"]
+                        return new
+        return node
+    return go(root, depth, tuple(_stack))
+
+
 _cm_cache = {}
 
 
